@@ -394,8 +394,25 @@ def run_c11(prop, tier, seed, t0):
     nm = 4 if quick else 16
     jobs += buf_miri("writers", [["--seed", str(seed), "--shard", str(k), "--nshards", str(nm), "--count", "50" if quick else "200"] for k in range(nm)], "miri-wr", seed)
     jobs += buf_valgrind("writers", seed + 4, 4 if quick else 16, ["--count", "1500" if quick else "40000"], "valgrind-wr")
+    # putter table (every put_X x nbytes x value pattern x leaf-boundary position x path): complete natively in both
+    # profiles; seeded slices of it (thorough: all of it) for the host, big-endian and 32-bit targets under Miri
+    jobs += buf_jobs("dbg", "putters", seed, 2, [], "put-dbg")
+    jobs += buf_jobs("rel", "putters", seed, 2, [], "put-rel")
+    tot = 24 if quick else 8
+    per = 2 if quick else 8
+    for tname, target in (("host", None), ("s390x", "s390x-unknown-linux-gnu"), ("i686", "i686-unknown-linux-gnu")):
+        args = [["--shard", str((seed * 7 + k * 5) % tot), "--nshards", str(tot)] for k in range(per)]
+        jobs += buf_miri("putters", args, "miri-" + tname + "-put", seed, target=target, timeout=2400)
+    if quick:
+        # the native-endian rows completely on the big-endian target (their big-endian arms run nowhere else)
+        jobs += buf_miri("putters", [["--only-ne", "--shard", str(k), "--nshards", "4"] for k in range(4)], "miri-s390x-put-ne", seed, target="s390x-unknown-linux-gnu", timeout=2400)
+    # the `cfg!(target_endian = "big")` arms of the _ne putters are dead code on x86: big-endian (s390x) and 32-bit
+    # (i686) targets interpret slices of the same writer workload under Miri
+    nx = 2 if quick else 8
+    for tname, target in (("s390x", "s390x-unknown-linux-gnu"), ("i686", "i686-unknown-linux-gnu")):
+        jobs += buf_miri("writers", [["--seed", str(seed + 7), "--shard", str(k), "--nshards", str(nx), "--count", "40" if quick else "150"] for k in range(nx)], "miri-" + tname + "-wr", seed, target=target, timeout=2400)
     rule = ("writer trees (Vec<u8> and BytesMut in 3 kinds with/without initial contents and spare capacity, &mut [u8] and &mut [MaybeUninit<u8>] inside guarded arenas, Chain, Limit incl. through &mut dyn, nested to depth 4, driven through dyn / &mut T / Box<T>) receive sequences of put_slice, put_bytes, every typed put_X (38 methods, values incl. sign-bit patterns, nbytes 0..=9), put(Buf) with reader trees (specialised and default put), set_limit; "
-            "sizes are chosen to fit, fill exactly, straddle leaf ends, trigger growth or not fit. After every step remaining_mut/chunk_mut laws; at the end the tree is dismantled: contents == initial ++ encodings in call order, guard bytes and bytes beyond the cursor untouched, per-leaf byte counts as chain/limit dictate, non-fitting writes must panic, every typed value is read back with the matching get_X; run on the ledger (debug, release), under ASan, Miri and valgrind memcheck. "
+            "sizes are chosen to fit, fill exactly, straddle leaf ends, trigger growth or not fit. After every step remaining_mut/chunk_mut laws; at the end the tree is dismantled: contents == initial ++ encodings in call order, guard bytes and bytes beyond the cursor untouched, per-leaf byte counts as chain/limit dictate, non-fitting writes must panic, every typed value is read back with the matching get_X; plus the putter table: every put_X row x nbytes 0..=9 x 6 value patterns x 9 targets (leaf boundary before / inside / behind the value, one byte too short) x call path, complete natively and in slices for big-endian s390x and 32-bit i686 under Miri; run on the ledger (debug, release), under ASan, Miri (host, big-endian s390x, 32-bit i686) and valgrind memcheck. "
             "A cell = (outermost target | method | fits/exact/nofit | path).")
     return run_and_finish(prop, tier, seed, t0, jobs, rule, assumptions=["reference encodings = low-order bytes of the value in the named byte order"])
 
